@@ -55,6 +55,37 @@ class Run:
         self.inconclusive(rule, construct, f"the recognised spelling was not found ({what})")
         return False
 
+    def borrow(self, repo: Any, other: str, as_rule: str, select: Any, minimum: int = 1) -> int:
+        """Import rule instances decided by another property's checker because they are necessary conditions of
+        this property too (the violating construct breaks both).  ``select(record) -> bool`` picks the instances
+        (obligations and inconclusives) by their rule / key; they are re-labelled ``as_rule`` so that findings and
+        evidence are keyed under this property.  The other checker runs on the same tree in this process."""
+        import importlib
+
+        cache = getattr(repo, "_borrow_cache", None)
+        if cache is None:
+            cache = repo._borrow_cache = {}
+        sub = cache.get(other)
+        if sub is None:
+            sub = Run(other, self.tier, self.root)
+            importlib.import_module(f"sa.props.{other.lower()}").check(repo, sub)
+            cache[other] = sub
+        n = 0
+        for o in sub.obligations:
+            if select(o):
+                rec = dict(o)
+                rec["rule"] = as_rule
+                rec["key"] = f"{as_rule}|" + o["key"].split("|", 1)[1]
+                rec["what"] = o["what"] + f" [rule instance shared with {o['rule']}]"
+                self.obligations.append(rec)
+                n += 1
+        for i in sub.inconclusives:
+            if select({"rule": i["rule"], "key": f"{i['rule']}|{i['site']}", "what": i["why"]}):
+                self.inconclusive(as_rule, i["site"], i["why"])
+                n += 1
+        self.floor(as_rule, n, minimum)
+        return n
+
     def is_known(self, o: Dict[str, Any]) -> bool:
         entry = load_known().get((self.prop, o["key"]))
         return entry is not None and entry.get("status") == "known"
